@@ -170,15 +170,17 @@ Lemma run_input_fu f now s i s1 p :
   run_input f now s i = Done s1 p -> s_logs s1 = s_logs s /\
   forall l, l_payload l = p -> l_date l = now -> forall a, fu (s_accounts s1) a = ev_min (log_events l) a (fu (s_accounts s) a).
 Proof.
-  destruct i as [ps ts ref md amd force | id force at_eff rmeta | [a|id] md | [a|id] k]; cbn [run_input].
-  - destruct ps as [|p0 ps']; [discriminate|].
+  script_split i.
+  { cbn [run_input]. unfold create_tx. destruct ps as [|p0 ps']; [discriminate|].
     destruct (feasible force (s_vols s) (p0 :: ps')); cbn [negb]; [|discriminate].
     destruct (commit_transaction f now s (p0 :: ps') md ts ref) as [s2 [t|]] eqn:E; [|discriminate].
     intros H. inversion H; subst s1 p. clear H.
     pose proof (commit_accounts _ _ _ _ _ _ _ _ _ E) as Ha.
     assert (Hl : s_logs s2 = s_logs s) by (apply commit_some in E; tauto).
     split; [rewrite upsert_tx_accounts_logs; exact Hl|].
-    intros l Hp _ b. unfold log_events. rewrite Hp. rewrite ev_min_same, upsert_tx_accounts_fu, Ha. reflexivity.
+    intros l Hp _ b. unfold log_events. rewrite Hp. rewrite ev_min_same, upsert_tx_accounts_fu, Ha. reflexivity. }
+  destruct i as [ps ts ref md amd force | id force at_eff rmeta | [a|id] md | [a|id] k | ps ts ref md amd force smd samd];
+    [apply Hc | | | | | | script_bullet Hc]; cbn [run_input].
   - destruct (find_tx (s_txs s) id) as [t|]; [|discriminate].
     destruct (t_rev t); [discriminate|].
     match goal with |- context [match ?c with RCOk => _ | RCInsufficient => _ | RCPanic => _ end] => destruct c end; try discriminate.
